@@ -17,20 +17,21 @@ const RingKey = "ringkey"
 
 // Cfg is the generated configuration of one lifecycler.
 type Cfg struct {
-	ID          string        `json:"id"`
-	Basic       bool          `json:"basic"`
-	NumTokens   int           `json:"num_tokens"`
-	JoinAfter   time.Duration `json:"join_after"`
-	Observe     time.Duration `json:"observe"`
-	HBPeriod    time.Duration `json:"heartbeat_period"`
-	Unregister  bool          `json:"unregister"`
-	RingHealth  bool          `json:"readiness_ring_health"`
-	TokensPath  string        `json:"tokens_path"`
-	GenSeed     uint32        `json:"gen_seed"`
-	GenSpace    uint32        `json:"gen_space"`     // 0: seeded random generator; n: harness generator over [0,n)
-	RegState    ring.InstanceState `json:"register_state"` // basic: state returned by the register delegate
-	AutoForget  time.Duration `json:"auto_forget"`    // basic: forget period (0 = no auto-forget delegate)
-	MinReady    time.Duration `json:"min_ready"`
+	ID         string             `json:"id"`
+	Basic      bool               `json:"basic"`
+	NumTokens  int                `json:"num_tokens"`
+	JoinAfter  time.Duration      `json:"join_after"`
+	Observe    time.Duration      `json:"observe"`
+	HBPeriod   time.Duration      `json:"heartbeat_period"`
+	Unregister bool               `json:"unregister"`
+	RingHealth bool               `json:"readiness_ring_health"`
+	TokensPath string             `json:"tokens_path"`
+	GenSeed    uint32             `json:"gen_seed"`
+	GenSpace   uint32             `json:"gen_space"`      // 0: seeded random generator; n: harness generator over [0,n)
+	RegState   ring.InstanceState `json:"register_state"` // basic: state returned by the register delegate
+	AutoForget time.Duration      `json:"auto_forget"`    // basic: forget period (0 = no auto-forget delegate)
+	MinReady   time.Duration      `json:"min_ready"`
+	FinalSleep time.Duration      `json:"final_sleep"` // full: time spent LEAVING (heartbeating) before the shutdown completes
 }
 
 func (c Cfg) String() string {
@@ -127,6 +128,7 @@ func New(c Cfg, store kv.Client) (*LC, error) {
 	lc.ReadinessCheckRingHealth = c.RingHealth
 	lc.MinReadyDuration = c.MinReady
 	lc.TokensFilePath = c.TokensPath
+	lc.FinalSleep = c.FinalSleep
 	lc.RingTokenGenerator = gen(c)
 	l, err := ring.NewLifecycler(lc, nil, "r", RingKey, false, log.NewNopLogger(), nil)
 	if err != nil {
